@@ -116,7 +116,7 @@ func main() {
 		if a.Tier == "thorough" {
 			caps = append(caps, 4, 5, 16, 17, 64, 127, 256, 511, 512)
 		}
-		per := a.Pick(21, 60)
+		per := a.Pick(17, 60)
 		for _, cp := range caps {
 			r := rng.Fork()
 			for i := 0; i < per; i++ {
